@@ -301,7 +301,7 @@ def _install():
         t0 = time.time()
         try:
             if os.environ.get("TESTREC_PURITY", "1") == "1":
-                _STATE["procs"].append((self, _fp(self), _STATE["test"]))
+                _STATE["procs"].append((self, _fp(self) if _STATE["test"] == "?" else "", _STATE["test"]))
                 _session_event(_opname(), True, new=self)
             if _STATE["test"] != "?" and _provenance_eq_Procedure is not None:
                 _STATE["last_proc"] = self
@@ -325,10 +325,18 @@ def _install():
     API.Procedure.__init__ = init
 
 
-def _fp(p):
+_TEXT_DIGEST = {}
+
+
+def _fp(p, reprint=True):
+    """structural fingerprint + digest of the printed text.  Printing is the expensive part (the formatter), so between
+    the creation of a procedure and the end of its test the last printed digest is reused (reprint=False); the
+    structural part is always recomputed."""
     from .purity import deep_fp
     try:
-        return deep_fp(p._loopir_proc) + ":" + hashlib.sha1(str(p).encode()).hexdigest()[:12]
+        if reprint or id(p) not in _TEXT_DIGEST:
+            _TEXT_DIGEST[id(p)] = hashlib.sha1(str(p).encode()).hexdigest()[:12]
+        return deep_fp(p._loopir_proc) + ":" + _TEXT_DIGEST[id(p)]
     except Exception as e:
         return "error:" + type(e).__name__
 
@@ -344,9 +352,25 @@ def _session_event(op, ok, new=None):
     if ses is None:
         return
     hs = ses.setdefault("handles", [])
+    cache = ses.setdefault("fpcache", [])
+    # (an interrupted recording - pytest's own timeout firing inside the wrapper - may have left an unrecorded handle)
+    del hs[len(cache):]
     if new is not None:
         hs.append(new)
-    ses["trace"]["events"].append({"op": op, "ok": ok, "fps": [_fp(p) for p in hs], "cfps": []})
+    # every handle is re-fingerprinted at the end of the test; after each creation, for long sessions, only the new
+    # procedure, its provenance chain and the most recent handles are (the others keep their last observed fingerprint)
+    full = op == "(test end)" or len(hs) <= 16
+    recheck = set(range(max(0, len(hs) - 6), len(hs)))
+    if new is not None and not full:
+        anc, pos = new, {id(p): k for k, p in enumerate(hs)}
+        while anc is not None:
+            if id(anc) in pos:
+                recheck.add(pos[id(anc)])
+            anc = getattr(anc, "_provenance_eq_Procedure", None)
+    fps = [(_fp(p, reprint=(op == "(test end)" or k >= len(cache))) if (full or k in recheck or k >= len(cache)) else cache[k])
+           for k, p in enumerate(hs)]
+    ses["fpcache"] = fps
+    ses["trace"]["events"].append({"op": op, "ok": ok, "fps": fps, "cfps": []})
     ses["meta"].append({"op": op, "ok": ok, "exc": "", "handles": len(hs)})
 
 
@@ -362,6 +386,7 @@ def _session_close():
             _session_event("(test end)", False)
             _STATE.pop("session", None)
             ses.pop("handles", None)
+            ses.pop("fpcache", None)
             _emit({"kind": "session", "test": ses["test"], "trace": ses["trace"], "meta": ses["meta"]})
         finally:
             _STATE["busy"] = False
@@ -434,6 +459,7 @@ if _OUT:
                 _STATE["busy"] = False
         _session_close()
         _STATE["procs"] = [t for t in _STATE["procs"] if t[2] == "?"]
+        _TEXT_DIGEST.clear()
         _STATE["test"] = "?"
 
     def pytest_sessionfinish(session, exitstatus):
